@@ -1,10 +1,12 @@
 import TrionModel.Driver.Crc
+import TrionModel.Driver.Codec
 /-! `trion-model`: one request per line on stdin, one reply per line on stdout.
 The first word selects the component; every request is self-contained (pure). -/
 open Trion.Driver
 
 def dispatch : List String → String
   | "crc" :: r => Crc.handle r
+  | "codec" :: r => Codec.handle r
   | ["ping"] => "pong"
   | _ => "bad-op"
 
